@@ -1042,6 +1042,10 @@ impl ActiveFile {
 
         let file = fs.open_existing(file_path)?;
 
+        // The file may have been created by a previous attempt that failed
+        // before its existence was synced to the parent directory
+        fs.sync_parent(file_path)?;
+
         let file_size_bytes = file.len()?;
 
         Ok(ActiveFile {
